@@ -82,6 +82,15 @@ func inputBounded(a *linAn, v ssa.Value, depth int) (bool, string) {
 		if isBuiltin(x, "len") && a.derivedFrom(x.Call.Args[0]) {
 			return true, ""
 		}
+		// a constant table written as a function of the kind, applied to a schema wire type
+		if f := x.Call.StaticCallee(); f != nil && len(x.Call.Args) == 1 && a.c.InModule(f) {
+			if _, ok := constIntFuncTable(f); ok {
+				if strings.HasSuffix(path(x.Call.Args[0]), ".WT") && !wireSource(a, x.Call.Args[0]) {
+					return true, ""
+				}
+				return false, "function " + f.Name() + " applied to " + path(x.Call.Args[0]) + " (must be a schema wire type, not a wire byte)"
+			}
+		}
 		return false, "call " + calleeShort(x)
 	case *ssa.BinOp:
 		switch x.Op {
@@ -142,6 +151,14 @@ func atMostInput(a *linAn, v ssa.Value, depth int) (bool, string) {
 							_, _, isTable := a.c.tableOf(g.Pkg.Pkg.Path(), g.Name())
 							return isTable && strings.HasSuffix(path(ia.Index), ".WT")
 						}
+					}
+				}
+			case *ssa.Call:
+				// a constant table written as a function of the kind, applied to a wire type of the schema (T2 holds its
+				// values against the protocol table, which makes them positive for every wire type)
+				if f := t.Call.StaticCallee(); f != nil && len(t.Call.Args) == 1 && a.c.InModule(f) {
+					if _, ok := constIntFuncTable(f); ok {
+						return strings.HasSuffix(path(t.Call.Args[0]), ".WT")
 					}
 				}
 			}
